@@ -5,4 +5,5 @@ CONSTANTS
   InitRestated = TRUE
   OriginFromSuper = FALSE
   AllowModifyBusy = FALSE
+  SigCheck = FALSE
 CHECK_DEADLOCK FALSE
